@@ -245,6 +245,14 @@ def e2_replay(name, model):
 # ------------------------------------------------------------------ (b) end-to-end
 def truth_series(c, order):
     tab = {}
+    if hasattr(c, "brute"):  # TREE universe
+        for n in range(order + 1):
+            k = len(c.brute(n)) if n <= 7 else None
+            if k is None:
+                break
+            if k:
+                tab[n] = {(): k}
+        return series_of_table(tab, ())
     for n in range(order + 1):
         ws = [c.prefix] if (c.atom and n == len(c.prefix)) else ([] if c.atom else R.words(c.t, n, c.q, c.prefix))
         for w in ws:
@@ -280,7 +288,7 @@ def assert_equations(ctx):
         if ctx.shape.get("genf") and not ctx.stats:
             gf = spec.get_genf()
             coeffs = taylor_expand(gf, 2 * 6 + 4)
-            want = [len(R.words(ctx.table, n)) for n in range(2 * 6 + 5)]
+            want = [len(e2e.truth_objects(ctx, n)) for n in range(2 * 6 + 5)]
             if [int(c) for c in coeffs] != want:
                 raise Bad("get_genf() = %s expands to %r, brute force %r" % (gf, coeffs, want))
             core.observe("closed forms checked")
